@@ -62,6 +62,23 @@ def directed(rng):
         add('dup-in-body-%d' % v, [http('h1', [Ca(1), Ca(1)]), D, hret('h1.1'), hret('h1.2'), D])
         add('refused-%d' % v, [http('h1', [Ca(1)], 'notpost'), http('h2', [Ca(1)], 'badtype'), http('h3', [Ca(2)], 'badcharset'), http('h4', [Ca(1)], 'garbage'), http('h5', [], 'emptyarr'), http('h7', [Ca(1)], 'trailing'), http('h8', [No, Ca(2)], 'trailing'), http('h9', [No], 'trailing'),
                                http('h6', [Ca(1)]), D, hret('h6.1'), D])
+        if v == 0:
+            # the media type must BE application/json (whatever the spelling, with or without a UTF-8 charset), not resemble it
+            n = 0
+            for kind, cts in (('badtype', ['text/plain', 'application/jsonx', 'application/json-seq', 'application/jsonl', 'application/json5', 'APPLICATION/JSON-SEQ', 'application/xml; charset=utf-8',
+                                           '', 'json', 'text/json', 'application/x-json', 'application', 'application/json/x', 'xapplication/json']),
+                              ('badcharset', ['application/json; charset=latin1', 'application/json; charset=utf-16', 'application/json;charset=us-ascii', 'application/json; charset="iso-8859-1"',
+                                              'application/json; charset=utf-80']),
+                              ('ok', ['application/json', 'application/json; charset=utf-8', 'application/json;charset=utf8', 'Application/JSON', 'application/json; charset="utf-8"', 'application/json; foo=bar',
+                                      ' application/json ', 'application/json;'])):
+                steps = []
+                for ct in cts:
+                    n += 1
+                    steps.append(dict(http('c%d' % n, [Ca(1)], kind), ct=ct))
+                steps.append(D)
+                if kind == 'ok':
+                    steps += [hret('c%d.1' % k) for k in range(n - len(cts) + 1, n + 1)] + [D]
+                add('content-types-%s' % kind, steps)
         add('many-%d' % v, [http('h%d' % i, [Ca(1), Ca(2 + i % 2)]) for i in range(1, 6)] + [D] + [hret('h%d.%d' % (i, j)) for j in (2, 1) for i in (5, 3, 1, 2, 4)] + [D])
     return out
 
